@@ -1,6 +1,7 @@
 """Built-in functions through the real MIR (Function arm of interpret -> Runtime::get_function -> Signature::validate -> evaluate)
 against the specification table/semantics in harness/funcs.py.  Shared by C02 (values), C06 (signatures), C12 (runtime error metadata)."""
 import z3, json, time, math, itertools
+from fractions import Fraction
 from mirsym.core import *
 from mirsym import models as MM, sym as SY
 from vf import explore as XP
@@ -73,7 +74,19 @@ def call_job(prog, name, arg_lists, deadline, seed=0, mode='values', label='', n
     def on_path(ex, r):
         S['paths'] += 1; S['outcomes'][r[0]] += 1
         if r[0] == 'abort': return
-        if r[0] == 'unsupported': S.inconclusive(f'{name}: ' + XP.short_unsupported(r[1])); return
+        if r[0] == 'unsupported':
+            if 'sort_unstable' in str(r[1]) and hasattr(ex, 'u_args'):
+                # an unstable sort met equal keys: the order of ties is unspecified, so the model cannot decide this path. std's unstable sort is an
+                # insertion sort below 21 elements, which hides the effect on small inputs: the tie pattern is amplified to 64 elements for the native replay.
+                if name == 'sort_by':
+                    doc = [{'k': (i * 7) % 3, 'i': i} for i in range(64)]; expr = 'sort_by(@, &k)[*].i'
+                    exp = [tag_py(x['i']) for x in sorted(doc, key=lambda x: x['k'])]
+                else:
+                    doc = [((i * 7) % 3 if i % 2 else float((i * 7) % 3)) for i in range(64)]; expr = 'sort(@)'
+                    exp = [tag_py(x) for x in sorted(doc, key=lambda x: Fraction(x))]
+                S.cand(f'c02:{name}-unstable', f'{name} uses an unstable sort ({XP.short_unsupported(r[1])[:80]})', {'expr': call_text(name, ex.u_args), 'amplified': '64 elements with three distinct keys'},
+                       {'op': 'search', 'expr': expr, 'doc': tag_py(doc)}, expected=exp); return
+            S.inconclusive(f'{name}: ' + XP.short_unsupported(r[1])); return
         args = ex.u_args; text = call_text(name, args)
         req = {'op': 'search', 'expr': text if not nest else ('`[0]`[*].' + text if nest == 'projection' else f'to_array({text})'), 'doc': None}
         if r[0] == 'panic':
@@ -81,6 +94,11 @@ def call_job(prog, name, arg_lists, deadline, seed=0, mode='values', label='', n
         out = r[1]
         want_err = F.check_call(name, args)
         if mode == 'values' and want_err is not None: S['outcomes']['skipped-ill-typed'] += 1; return
+        if want_err == 'either':
+            # an expression reference in an `any` position: success or invalid-type are both accepted, nothing else
+            if out.variant == 'Err' and XP.reason_kind(out.fields[0].v) not in ('invalid-type',):
+                S.cand('c06:wrong-error-class', f'{name}: expression reference in an `any` position fails with {XP.reason_kind(out.fields[0].v)}', {'expr': req['expr']}, req, expected='invalid-type')
+            return
         sp = F.spec(name, args) if (want_err is None and name in F.SIG) else None
         exp_off = INNER_OFF if (sp is not None and sp[0] == 'err' and len(sp) > 2 and sp[2] == 'inner') else OUTER_OFF
         if out.variant == 'Err':
@@ -154,13 +172,13 @@ def universes(A):
      'join': [['', ',', 'é'], arrays_of(['a', 'b', '', 'é'], A)],
      'keys': [OBJS], 'values': [OBJS], 'length': [STRS + arrays_of([1, None], 2) + OBJS],
      'map': [EXPREFS, arrays_of([None, 1, 'a', [1, 2], {'a': 1}, {'a': None, 'b': 2}], min(A, 2))],
-     'max': [arrays_of([1, 2, 1.0, -1.5], A) + arrays_of(['a', 'b', 'é', 'ab'], A)], 'min': [arrays_of([1, 2, 1.0, -1.5], A) + arrays_of(['a', 'b', 'é', 'ab'], A)],
+     'max': [arrays_of([1, 2, 1.0, -1.5], A) + arrays_of(['a', 'b', 'é', 'ab'], A) + arrays_of([0.30000000000000004, 0.3, 1], A)], 'min': [arrays_of([1, 2, 1.0, -1.5], A) + arrays_of(['a', 'b', 'é', 'ab'], A) + arrays_of([0.30000000000000004, 0.3, 1], A)],
      'max_by': [arrays_of([{'a': 1}, {'a': 2}, {'a': 2, 'b': 0}, {'a': 'x'}, {'a': 'é'}, {'b': 1}, 1, 'ab'], A), EXPREFS],
      'min_by': [arrays_of([{'a': 1}, {'a': 2}, {'a': 1, 'b': 0}, {'a': 'x'}, {'a': 'é'}, {'b': 1}, 1, 'ab'], A), EXPREFS],
-     'sort_by': [arrays_of([{'a': 1}, {'a': 2}, {'a': 1, 'b': 0}, {'a': 1.0, 'b': 1}, {'a': 'x'}, {'a': 'é'}, {'b': 1}, 2, 'ab'], A), EXPREFS],
+     'sort_by': [arrays_of([{'a': 1}, {'a': 2}, {'a': 1, 'b': 0}, {'a': 1.0, 'b': 1}, {'a': 'x'}, {'a': 'é'}, {'b': 1}, 2, 'ab', {'a': 0.30000000000000004}, {'a': 0.3}], A), EXPREFS],
      'merge': [OBJS, OBJS, OBJS[:4]], 'not_null': [ANY[:10], [None, 1, 'a', []], [None, 2]],
      'reverse': [STRS + arrays_of([1, 'a', None, [1]], A)],
-     'sort': [arrays_of([1, 2, 1.0, -1.5, 10], A) + arrays_of(['a', 'b', 'é', 'ab', 'B'], A)],
+     'sort': [arrays_of([1, 2, 1.0, -1.5, 10], A) + arrays_of(['a', 'b', 'é', 'ab', 'B'], A) + arrays_of([0.30000000000000004, 0.3, 1], A)],
      'to_array': [ANY[:10]], 'to_number': [NUMS + NUMSTR + [None, True, [], {}, [1]]], 'to_string': [[None, True, False, 1, -1, 1.5, 'a', 'é"', [], [1, 'a', None], {}, {'b': 1, 'a': [True]}]],
      'type': [ANY],
     }
